@@ -33,4 +33,15 @@ if '<!-- SEEDED-BEGIN -->' in s:
     i = s.index('<!-- SEEDED-BEGIN -->') + len('<!-- SEEDED-BEGIN -->'); j = s.index('<!-- SEEDED-END -->')
     s = s[:i] + "\n" + "\n".join(rows) + "\n" + s[j:]
     open(p, 'w').write(s)
+import collections, subprocess
+byp = collections.Counter(f['Property'] for f in d['Findings'] if f['Status'] == 'fixed')
+commits = sorted({f.get('Commit') for f in d['Findings'] if f['Status'] == 'fixed' and f.get('Commit')})
+nfix = len(subprocess.run(['git', '-C', '/repo', 'log', '--format=%h', '--grep=^fix:'], capture_output=True, text=True).stdout.split())
+summary = "%d findings were repaired (%d distinct commits named in known_findings.json; /repo has %d `fix:` commits in all). By property: %s." % (
+    sum(byp.values()), len(commits), nfix, ", ".join("%s %d" % (k, byp[k]) for k in sorted(byp)))
+s = open(p).read()
+if '<!-- FIXED-SUMMARY-BEGIN -->' in s:
+    i = s.index('<!-- FIXED-SUMMARY-BEGIN -->') + len('<!-- FIXED-SUMMARY-BEGIN -->'); j = s.index('<!-- FIXED-SUMMARY-END -->')
+    s = s[:i] + "\n" + summary + "\n" + s[j:]
+    open(p, 'w').write(s)
 print("FINDINGS.md:", len(d['Findings']), "entries; seeded:", len(rows) - 2)
